@@ -240,3 +240,26 @@ theorem historyLE_foldl (rest : List (List Version)) : ∀ (st : Option Store) (
 theorem historyLE_eq_foldl (batches : List (List Version)) : historyLE batches = batches.foldl stepLE (.ok Option.none) := rfl
 
 end Pyg.Bitemp
+
+namespace Pyg.Bitemp
+open Pyg
+
+theorem col_append (d T : Int) (a b : List Version) : col d T (a ++ b) = col d T a ++ col d T b := by
+  simp [col, logRows_append, List.filter_append, group_append]
+
+/-- `inv_remerge` under the weaker hypothesis of `merge_idem`: the re-merged version was published (its rows are rows of the log) and
+    its values are NaN or the values visible as of its stamp - its rows need not be rows of the store (a repeat is compressed away) -/
+theorem inv_remerge_visible {st : Store} {log : List Version} (h : Inv st (logRows log)) (w : Version)
+    (hsub : ∀ p ∈ w.ts, (⟨p.1, w.stamp, p.2⟩ : Row) ∈ logRows log)
+    (hvis : ∀ p ∈ w.ts, ∃ y, (p.1, y) ∈ biRead st (some w.stamp) (-1) ∧ (p.2 = Option.none ∨ p.2 = y)) :
+    Inv (mergeFrames [st, Bi w.ts w.stamp]) (logRows log) := by
+  obtain ⟨hg, he, hm⟩ := h
+  refine ⟨mergeFrames_good _ _, (remerge_specEq st hg w hvis).trans he, ?_⟩
+  intro r hr
+  rcases List.mem_append.mp (mergeFrames_subset _ _ hr) with h1 | h1
+  · exact hm r h1
+  · simp only [Bi, List.mem_map] at h1
+    obtain ⟨p, hp, rfl⟩ := h1
+    exact hsub p hp
+
+end Pyg.Bitemp
